@@ -75,6 +75,10 @@ def run(ctx, rep):
         rep.ob(ok, 'R06.2', pc.path, 'arm covering Type::Int', 'integers must be ordered by their decoded signed values (as_int), not by the tagged words as addresses: %s' % why[:160], pc.loc())
     if not seen_int:
         rep.bad('R06.2', pc.path, 'arm covering Type::Int', 'no returning path orders integers', pc.loc())
+    # `==` / `!=`: exact per type (a shortcut on identical words makes a NaN equal to itself; see R15.5 for the same rule)
+    rep.rule('R06.6', 'equality answers only after comparing the tags, by content for floats and strings, by word for immediates')
+    from rules import c15
+    shared.check_object_eq(F, rep, 'R06.6', c15.heap_types(ctx))
     # R06.3
     shared.check_int_encoder_range(ctx, rep, 'R06.3')
     # R06.4
